@@ -68,6 +68,9 @@ type SiteInfo struct {
 	Kind   Kind     `json:"kind"`
 	Rule   string   `json:"rule"`
 	Labels []string `json:"labels"`
+	// InRecovery: the block sits in a recovery expression, which runs wherever
+	// the label is thrown (possibly while another rule is being parsed).
+	InRecovery bool `json:"in_recovery,omitempty"`
 }
 
 // Grammar is a generated grammar.
@@ -132,10 +135,11 @@ func (g *Grammar) Finish() {
 		}
 		number(r.Expr)
 		var visit func(e *Expr)
+		inRec := 0
 		newSite := func(e *Expr) {
 			site++
 			e.Site = site
-			g.Sites = append(g.Sites, SiteInfo{Site: site, Kind: e.Kind, Rule: r.Name, Labels: cur()})
+			g.Sites = append(g.Sites, SiteInfo{Site: site, Kind: e.Kind, Rule: r.Name, Labels: cur(), InRecovery: inRec > 0})
 		}
 		visit = func(e *Expr) {
 			switch e.Kind {
@@ -162,7 +166,9 @@ func (g *Grammar) Finish() {
 			case Recover:
 				push()
 				visit(e.Subs[0])
+				inRec++
 				visit(e.Subs[1])
+				inRec--
 				pop()
 			case Seq:
 				for _, s := range e.Subs {
